@@ -142,6 +142,17 @@ func init() {
 			if base.Cfg.Grace == 0 {
 				base.Cfg.Grace = 20 * sec
 			}
+			// after a restart the bookkeeping of the latest requests may be
+			// lost; keep the probes from being judged against older peers
+			base.Cfg.AcceptIP, base.Cfg.AcceptUA, base.Cfg.Expiry = 1, true, forever
+			for i := range base.Steps {
+				if c := base.Steps[i].Cfg; c != nil {
+					c2 := *c
+					c2.IDExpiry, c2.Grace = base.Cfg.IDExpiry, base.Cfg.Grace
+					c2.AcceptIP, c2.AcceptUA, c2.Expiry = 1, true, forever
+					base.Steps[i].Cfg = &c2
+				}
+			}
 			if len(base.Steps) > 16 {
 				base.Steps = base.Steps[:16]
 			}
